@@ -93,6 +93,54 @@ class Impl:
         return canon_json(r["statements"][0]["node"]["select_list"][0])
 
 
+def helper_probes(impl: Impl) -> list:
+    """what the builder model assumes of the low-level helpers (Column.__init__, _lit, column_expression, copy,
+    functions.col / lit), checked on the real objects: -> list of failed probes"""
+    from sqlframe.base.column import Column
+    from sqlglot import expressions as exp
+    F, bad = impl.F, []
+
+    def sql(c):
+        return c.expression.sql(dialect="duckdb")
+
+    lits = {None: "NULL", True: "TRUE", False: "FALSE", 0: "0", 1: "1", -1: "-1", 2: "2", "a": "'a'", "": "''", "ab": "'ab'"}
+    for v, want in lits.items():
+        for name, mk in (("F.lit", F.lit), ("Column._lit", Column._lit)):
+            try:
+                got = sql(mk(v))
+            except Exception as ex:
+                got = "raises " + type(ex).__name__
+            if got != want:
+                bad.append(f"{name}({v!r}) -> {got}, modelled {want}")
+        if not isinstance(v, str):
+            try:
+                got = sql(Column(v))
+            except Exception as ex:
+                got = "raises " + type(ex).__name__
+            if got != want:
+                bad.append(f"Column({v!r}) -> {got}, modelled {want}")
+    for n in T.COLS + ["l"]:
+        try:
+            c = F.col(n)
+            if not (isinstance(c.expression, exp.Column) and sql(c) == n):
+                bad.append(f"F.col({n!r}) -> {sql(c)}")
+        except Exception as ex:
+            bad.append(f"F.col({n!r}) raises {type(ex).__name__}")
+    try:
+        a = F.col("a")
+        if Column(a).expression is not a.expression:
+            bad.append("Column(<Column>) does not reuse the expression")
+        al = (a + 1).alias("z")
+        if not isinstance(al.expression, exp.Alias) or al.column_expression.sql(dialect="duckdb") != "(a + 1)":
+            bad.append("alias()/column_expression: " + sql(al))
+        cp = al.copy()
+        if cp.expression is al.expression or sql(cp) != sql(al):
+            bad.append("copy() is not an independent equal copy")
+    except Exception as ex:
+        bad.append(f"Column/alias/copy probe raises {type(ex).__name__}: {ex}")
+    return bad
+
+
 def split_select(sql: str, n: int):
     m = re.search(r'SELECT "id" AS "id", (.*) FROM "t\w+"$', sql, re.S)
     if not m:
@@ -451,6 +499,10 @@ def run(ctx: core.Ctx):
         ctx.coqc(gen_v)
     # ---- implementation
     impl = Impl()
+    probes = helper_probes(impl)
+    if probes:
+        ctx.broken("T1:helper-probes", f"{len(probes)} assumptions of the builder model about Column.__init__/_lit/"
+                   f"column_expression/copy/functions.col/lit fail; first: {probes[0]}", data=probes[:10])
     trees_src, n_exh = make_trees(ctx)
     shared = build_shared(impl, ctx)          # built completely before the first statement is sent
     prebuilt, programs = {}, {}
